@@ -2300,3 +2300,37 @@ def event_fields(R, RID, classes):
                     others.append('%s shadows the attribute' % fq)
         R.ob(RID, 'events.%s payload attributes are written by the constructor only' % cname, not others,
              'also written in %s' % others, func=f, node=None, construct='events.%s attribute writers' % cname)
+
+
+EVENT_NAMES = {'Ready': 'ready', 'Ping': 'ping', 'Pong': 'pong', 'Poll': 'poll', 'Text': 'text', 'Binary': 'binary',
+               'Closed': 'closed', 'Closing': 'closing', 'Disconnected': 'disconnected', 'Rejected': 'rejected'}
+
+
+def event_names(R, RID):
+    """The session and persist() react to events by their ``name``: every event class resolves (through its bases) to a
+    name of its own, and the classes the loop dispatches on carry the names it tests for."""
+    from ..consteval import fold
+    seen = {}
+    n = 0
+    for q in sorted(R.prog.subclasses('events.Event')):
+        if q == 'events.Event':
+            continue
+        ca = R.prog.class_attr(q, 'name')
+        val = None
+        if ca is not None:
+            v = ca[1]
+            v = v[-1] if isinstance(v, list) else v
+            val = v.value if isinstance(v, ast.Constant) else fold(R, v, None) if isinstance(v, ast.AST) else None
+        short = q.split('.')[-1]
+        n += 1
+        if short in EVENT_NAMES:
+            R.ob(RID, 'events.%s.name' % short, val == EVENT_NAMES[short],
+                 'events.%s.name resolves to %r (defined in %s): the loop, which dispatches on event.name, treats a %s as '
+                 'something else' % (short, val, ca[0] if ca else None, short), func='events.%s.__init__' % short
+                 if ('events.%s.__init__' % short) in R.prog.funcs else None, node=None, construct='events.%s.name = %r' % (short, val))
+        if val is not None:
+            seen.setdefault(val, []).append(short)
+    dup = {k: v for k, v in seen.items() if len(v) > 1}
+    R.ob(RID, 'event names are distinct', not dup, 'event classes share a name: %s' % dup, func=None, node=None,
+         construct='event name table')
+    need(n >= 10, 'event classes not found')
